@@ -1,6 +1,7 @@
 package main
 
 import (
+	"math/big"
 	"os"
 	"fmt"
 	"go/types"
@@ -256,6 +257,25 @@ func (ex *Executor) dispatchCall(st *State, fr *Frame, cc *ssa.CallCommon, fv Va
 		resVal = rv
 	}
 	name := ex.staticCalleeName(cc)
+	// appending one ASCII character to a strings.Builder / bytes.Buffer is the same event whichever of WriteRune,
+	// WriteByte or WriteString("c") is used for it
+	if (strings.HasPrefix(name, "(*strings.Builder).") || strings.HasPrefix(name, "(*bytes.Buffer).")) && len(args) == 2 {
+		recvName := name[:strings.Index(name, ").")+2]
+		switch name[len(recvName):] {
+		case "WriteByte":
+			if t := args[1].T; t != nil && t.IsNum() && t.Num.Sign() >= 0 && t.Num.Cmp(big.NewInt(128)) < 0 {
+				name = recvName + "WriteRune"
+			}
+		case "WriteString":
+			if t := args[1].T; t != nil {
+				if lit, ok := litOf(t); ok && len(lit) == 1 && lit[0] < 128 {
+					name = recvName + "WriteRune"
+					args = append([]Val(nil), args...)
+					args[1] = Val{T: Num(int64(lit[0])), Ty: types.Typ[types.Int32]}
+				}
+			}
+		}
+	}
 	observedHere := ex.observed(name) || ex.effectful(cc)
 	ord := ex.callOrdinal(fr.fn, ins, name)
 	if !deferred {
